@@ -684,6 +684,12 @@ func TestVerifKeepAliveHTTP(t *testing.T) {
 	emit := func(prefix string, c *khCase) {
 		id := fmt.Sprintf("%s%d", prefix, n)
 		var obs string
+		if c.side == "shttp" && c.race > 0 {
+			op, o := khRunDelete(t, c)
+			out.line(id, op, o, append(khTags(c, o), "http-delete")...)
+			n++
+			return
+		}
 		if c.side == "shttp" && c.mode == "stateless" {
 			obs = khRunStateless(t, c)
 		} else if c.side == "ssec" || c.side == "sses" {
@@ -705,6 +711,11 @@ func TestVerifKeepAliveHTTP(t *testing.T) {
 		}
 		for _, ln := range strings.Split(string(b), "\n") {
 			ln = strings.TrimSpace(ln)
+			if strings.HasPrefix(ln, "kss ") {
+				if i := strings.Index(ln, " scn=shttp|"); i >= 0 {
+					ln = "kas " + strings.ReplaceAll(strings.Fields(ln[i+len(" scn=shttp|"):])[0], "|", " ")
+				}
+			}
 			if !strings.HasPrefix(ln, "kas ") || !(strings.Contains(ln, " side=http ") || strings.Contains(ln, " side=ctxw ") || strings.Contains(ln, " side=srvw ") || strings.Contains(ln, " side=shttp ") || strings.Contains(ln, " side=ssec ") || strings.Contains(ln, " side=sses ")) {
 				continue // the other lines belong to the streams `loop` and `sessions`
 			}
@@ -853,6 +864,28 @@ func TestVerifKeepAliveHTTP(t *testing.T) {
 						c.derive()
 						c.tc = kaAfter(I, c.script)
 						emit("g", c)
+					}
+				}
+			}
+		}
+		// DELETE versus keep-alive: the client's DELETE arrives r after tick k, whose ping is unanswered / answered
+		// late / stored (no standalone stream, EventStore) / refused — or was answered at once (between two ticks) —
+		// after 0..1 answered pings, x thresholds 1..3
+		for _, mode := range []string{"", "store"} {
+			for pre := 0; pre <= 1; pre++ {
+				for _, k := range []khStep{{kind: 'n'}, {'j', I/2 + 211, 0}, {'G', 0, 0}, {'j', 3, 0}, {'x', 9, 0}} {
+					for _, r := range []int64{1, 137, I/2 - 3, I/2 + 53} {
+						for T := 1; T <= 3; T++ {
+							var w []khStep
+							for i := 0; i < pre; i++ {
+								w = append(w, khStep{'j', 7, 0})
+							}
+							w = append(w, k, khStep{'j', 5, 0})
+							c := &khCase{side: "shttp", mode: mode, I: I, T: T, wire: w, pv: protocolVersion20251125, race: r}
+							c.derive()
+							c.tc = int64(pre+1)*I + r
+							emit("d", c)
+						}
 					}
 				}
 			}
